@@ -102,7 +102,7 @@ def engine_cases(chk):
     for verdict in ([False, None], [False, "mfa"], [True, None], [0, "x"], [1, None], ["raise"]):
         # a checker "synchronous or asynchronous": every way a check() can hand back its verdict now or later
         for flavour in ("sync", "async", "def-returning-coroutine", "def-returning-future", "decorated-async",
-                        "async-callable-object", "partial-async"):
+                        "async-callable-object", "partial-async", "custom-awaitable"):
             for cached in (False, True):
                 cases.append({"fam": "engine_custom", "obligations": [{"type": "anything"}], "ctx": {}, "shape": "single",
                               "cached": cached, "checker": flavour, "verdict": verdict})
@@ -178,7 +178,18 @@ def run_engine(cases):
                     def __init__(self):
                         self.check = functools.partial(_averdict)
 
-                kw["obligation_checker"] = {"sync": Sync, "async": Async, "def-returning-coroutine": DefCoroutine,
+                class _Later:                     # awaitable only through __await__ (neither coroutine nor Future)
+                    def __init__(self, raw, context):
+                        self.a = (raw, context)
+
+                    def __await__(self):
+                        return _averdict(*self.a).__await__()
+
+                class CustomAwaitable:
+                    def check(self, raw, context):
+                        return _Later(raw, context)
+
+                kw["obligation_checker"] = {"custom-awaitable": CustomAwaitable, "sync": Sync, "async": Async, "def-returning-coroutine": DefCoroutine,
                                             "def-returning-future": DefFuture, "decorated-async": Decorated,
                                             "async-callable-object": CallableObject, "partial-async": PartialAsync}[c["checker"]]()
             if c["cached"]:
